@@ -113,6 +113,8 @@ def zero_of(t):
         return "(0 : Cx R)"
     if t == "bool":
         return "false"
+    if isinstance(t, tuple) and t[0] == "vec":
+        return f"([] : {lean_ty(t)})"
     raise Unsupported(f"no default element for {t}")
 
 
@@ -1175,6 +1177,13 @@ class Emitter:
             if b is not None:
                 return "{ " + atom(b) + " with " + ", ".join(parts) + " }", self.self_struct
             return "({ " + ", ".join(parts) + " } : " + lean_ty(self.self_struct) + ")", self.self_struct
+        if segs == ["C"] and base is None and sorted(f for f, _ in fields) == ["im", "re"]:
+            d = dict(fields)
+            re_, tr_ = self.ex(d["re"], env, "R")
+            im_, ti_ = self.ex(d["im"], env, "R")
+            if tr_ != "R" or ti_ != "R":
+                self.fail("complex literal with non-real components")
+            return f"(({{ re := {re_}, im := {im_} }} : Cx R))", "C"
         self.fail(f"struct literal {'::'.join(segs)}")
 
     def if_expr(self, e, env, want):
@@ -1751,6 +1760,8 @@ class Emitter:
                     if name == "resize" and len(args) == 2:
                         n, tn = self.ex(args[0], env, "N"); x, tx = self.ex(args[1], env, rt[1])
                         return self.set_place(recv, f"Rs.resize {atom(rv)} {atom(n)} {atom(x)}", env, cont)
+                    if name in ("reserve", "reserve_exact", "shrink_to_fit") :
+                        return cont(env)          # capacity only
                     if name in ("push", "push_back") and len(args) == 1:
                         x, tx = self.ex(args[0], env, rt[1])
                         if rt[1] == "Ast":
@@ -2727,6 +2738,47 @@ class Translator:
         except (Unsupported, IndexError, KeyError, TypeError, AttributeError):
             pass
 
+    def infer_empty_vecs(self, body, ret):
+        """`let mut v = vec![];` without a type: the element type is read off the function's return type when `v` is
+        the value of the function, or off a later `v.resize(n, X)` / `v.push(X)` in the same block with `X` a variable
+        declared with a type (`const O: C = ..`)"""
+        if not (isinstance(body, tuple) and body and body[0] == "block"):
+            return body
+        def fix_block(b, typed, is_fn_body):
+            typed = dict(typed)
+            stmts = []
+            for i, st in enumerate(b[1]):
+                if st[0] == "let" and st[1][0] == "pid" and st[2] is not None:
+                    typed[st[1][1]] = st[2]
+                if st[0] == "let" and st[1][0] == "pid" and st[2] is None and unparen(st[3]) == ("veclist", []):
+                    x = st[1][1]
+                    ty = None
+                    if is_fn_body and ret is not None and b[2] is not None and unparen(b[2]) == ("path", [x]):
+                        ty = ret
+                    else:
+                        for later in b[1][i + 1:]:
+                            for n in walk(later):
+                                if isinstance(n, tuple) and n and n[0] == "mcall" and unparen(n[1]) == ("path", [x]) and n[2] in ("resize", "push") and n[3]:
+                                    a = unparen(n[3][-1])
+                                    if a[0] == "path" and len(a[1]) == 1 and a[1][0] in typed:
+                                        ty = f"Vec<{typed[a[1][0]]}>"
+                                        break
+                            if ty:
+                                break
+                    if ty is not None:
+                        st = ("let", st[1], ty, st[3])
+                stmts.append(deep(st, typed))
+            return ("block", stmts, deep(b[2], typed)) + tuple(b[3:])
+        def deep(x, typed):
+            if isinstance(x, tuple):
+                if x and x[0] == "block":
+                    return fix_block(x, typed, False)
+                return tuple(deep(y, typed) for y in x)
+            if isinstance(x, list):
+                return [deep(y, typed) for y in x]
+            return x
+        return fix_block(body, {}, True)
+
     def tail_mut_calls(self, body):
         """a `Result<(), _>`-valued call of a method with `&mut` parameters in tail position (`self.process_qreg(changes, ..)`,
         possibly as the value of every arm of a tail `match`) is read as `{ CALL?; Ok(()) }` - the same value"""
@@ -2807,6 +2859,7 @@ class Translator:
             params, ret, body = find_fn(toks, rust, impl=impl, nth=nth)
             body = self.scratch_cell(body)
             body = self.tail_mut_calls(body)
+            body = self.infer_empty_vecs(body, ret)
             self_ty = MULTIOP if struct == "MultiOp" else (("struct", struct) if struct else None)
             em = Emitter(self, where, self_ty)
             env, ps, muts = {}, [], []
@@ -3088,6 +3141,11 @@ def main():
             T(t, "operator/multi/mod.rs", rust, "multi_" + rust, struct="MultiOp", impl=r"impl Applicable for MultiOp")
         T(t, "operator/multi/mod.rs", "mul_assign", "multi_mul_assign", struct="MultiOp", impl=r"impl MulAssign for MultiOp")
     group("operator/multi/mod.rs", multi)
+
+    # ---- operator/applicable.rs: the default method `matrix` of the trait, at the queue type (`self.apply` is MultiOp::apply)
+    def applicable(t):
+        T(t, "operator/applicable.rs", "matrix", "multi_matrix", struct="MultiOp")
+    group("operator/applicable.rs", applicable)
 
     # ---- operator/single/{pauli,rotate,swap}.rs: the checked constructors (atom constructors come from rs2lean.py)
     for k in ["x", "y", "z", "s", "t", "swap", "sqrt_swap", "i_swap", "sqrt_i_swap"]:
